@@ -1,7 +1,245 @@
-/- C16 — placeholder while the model is being tied to the code; theorems follow. -/
-import DSModel.VarOpt.Union
-namespace DS.VarOpt
+/- C16 — VarOpt: total weight conserved, heavy items exact (DESIGN.md §3 C16).
 
-theorem vo_placeholder : (Sk.new (α := Rat) ⟨10, 3, 3, 2, 1, 1, 10, []⟩ 0 0 false).isNone = true := by decide
+   All theorems are about the `Rat` instance of the executable model `DSModel/VarOpt/{Heap,Sketch,Union}.lean`
+   (the `Float` instance of the same definitions is what the correspondence check compares with the real headers).
+   They quantify over every configuration, every stream of positive weights, and every draw sequence `ds`
+   (the random-choice oracle), with no bound on lengths.  `feed false items s0 ds` = `update` applied to the items in
+   order, starting from the empty sketch `s0`; `none` would be a C++ exception.
+
+   NOT formalised (said in the CLAIM note as well): "subset-sum estimates are unbiased over the sampling randomness"
+   as a statement about whole histories.  `vo_one_step_unbiased` is the one-step identity it follows from. -/
+import DSProofs.Lemmas.VarOptStep
+namespace DS.VarOpt
+open DS
+
+/-- sample tunables for the non-vacuity examples (the theorems hold for every value) -/
+def exT : Tunables := ⟨2147483646, 3, 3, 2, 1, 1, 10000000000, []⟩
+def exItems : List (Int × Rat) := [(1, 10), (2, 10), (3, 10), (4, 7)]
+def exDraws : Draws Rat := ⟨[1/2, 1/4], [1, 5]⟩
+
+/-- **vo_size.** After any stream of positive weights (any k, any draws) the sketch has counted every item, holds
+    `h + r = min(n, k)` samples (`get_num_samples`), every H entry is an input with its weight, and every R item is
+    an input item.  `update` never throws. -/
+theorem vo_size (T : Tunables) (k rf : Nat) (s0 : Sk Rat) (h0 : Sk.new T k rf false = some s0)
+    (items : List (Int × Rat)) (hpos : ∀ p ∈ items, 0 < p.2) (ds : Draws Rat) :
+    ∃ s ds', feed false items s0 ds = some (s, ds') ∧ s.n = items.length ∧ s.k = k ∧
+      s.H.length + s.R.length = min items.length k ∧ s.numSamples = min items.length k ∧
+      (∀ e ∈ s.H, (e.item, e.wt) ∈ items) ∧ (∀ x ∈ s.R, ∃ q ∈ items, q.1 = x) := by
+  obtain ⟨hinv0, hk0, hg0, _⟩ := new_inv T k rf false s0 h0
+  obtain ⟨s, ds', L, hf, hinv, hk, hg, _, _⟩ := feed_spec false items s0 [] [] ds hinv0 hpos (by simp)
+  have hlen : (entriesOf s0.gadget false items ++ []).length = items.length := by simp [length_entriesOf]
+  have hmem : ∀ e ∈ entriesOf s0.gadget false items ++ [], (e.item, e.wt) ∈ items := by
+    intro e he
+    simp only [List.append_nil] at he
+    exact (mem_entriesOf.mp he).1
+  have hsz : s.H.length + s.R.length = min items.length k := by
+    have hl := hinv.perm.length_eq
+    rw [hlen, List.length_append] at hl
+    by_cases hr : s.R = []
+    · obtain ⟨hL, hh⟩ := hinv.warm hr
+      rw [hL] at hl; rw [hr]; simp at hl ⊢; rw [hk, hk0] at hh; omega
+    · have he := hinv.est hr
+      have h1 := he.cnt; have h2 := he.rLen
+      rw [hk, hk0] at h1; omega
+  refine ⟨s, ds', hf, by rw [hinv.n_eq, hlen], by rw [hk, hk0], hsz, ?_, ?_, ?_⟩
+  · unfold Sk.numSamples; rw [hsz, hk, hk0]; omega
+  · intro e he
+    exact hmem e (hinv.perm.symm.subset (List.mem_append_left _ he))
+  · intro x hx
+    have hr : s.R ≠ [] := fun h => by rw [h] at hx; simp at hx
+    obtain ⟨e, heL, hex⟩ := (hinv.est hr).rItems x hx
+    exact ⟨(e.item, e.wt), hmem e (hinv.perm.symm.subset (List.mem_append_right _ heL)), hex⟩
+
+example : ∃ s0, Sk.new (α := Rat) exT 2 0 false = some s0 ∧ (∀ p ∈ exItems, 0 < p.2) :=
+  ⟨_, rfl, by decide⟩
+
+/-- **vo_weight_conserved.** `Σ_H w + total_wt_r = Σ inputs w` (no R part while in warm-up); hence the adjusted weights
+    handed out by the iterator sum to the total, and `estimate_subset_sum(always true).estimate` is the total
+    (for whatever bound functions `B`). -/
+theorem vo_weight_conserved (T : Tunables) (k rf : Nat) (s0 : Sk Rat) (h0 : Sk.new T k rf false = some s0)
+    (items : List (Int × Rat)) (hpos : ∀ p ∈ items, 0 < p.2) (ds : Draws Rat) :
+    ∃ s ds', feed false items s0 ds = some (s, ds') ∧
+      sumW s.H + (if s.R = [] then 0 else s.totalWtR) = totalW items ∧
+      sumR (s.samples.map (·.2)) = totalW items ∧
+      (∀ B : FracBounds Rat, ∃ r, estimateSubsetSum B s (fun _ => true) = some r ∧ r.estimate = totalW items) := by
+  obtain ⟨hinv0, _, _, _⟩ := new_inv T k rf false s0 h0
+  obtain ⟨s, ds', L, hf, hinv, _, _, _, _⟩ := feed_spec false items s0 [] [] ds hinv0 hpos (by simp)
+  have htot : sumW (entriesOf s0.gadget false items ++ []) = totalW items := by
+    rw [List.append_nil, sumW_entriesOf]
+  refine ⟨s, ds', hf, ?_, by rw [hinv.samples_sum, htot], fun B => ?_⟩
+  · by_cases hr : s.R = []
+    · rw [if_pos hr, add_zero, hinv.weight.1 hr, htot]
+    · rw [if_neg hr, hinv.weight.2 hr, htot]
+  · obtain ⟨r, h1, h2⟩ := hinv.estimate_all B
+    exact ⟨r, h1, by rw [h2, htot]⟩
+
+example : totalW exItems = 37 := by norm_num [totalW, exItems, sumR]
+
+/-- **vo_heavy_exact.** (a) tau = total_wt_r / r never decreases as the stream continues; (b) in estimation mode every
+    H entry carries its input weight and is at least tau (in particular `peek_min`), and every input heavier than tau
+    is in H with its exact weight. -/
+theorem vo_heavy_exact (T : Tunables) (k rf : Nat) (s0 : Sk Rat) (h0 : Sk.new T k rf false = some s0)
+    (items more : List (Int × Rat)) (hpos : ∀ p ∈ items, 0 < p.2) (hpos2 : ∀ p ∈ more, 0 < p.2) (ds : Draws Rat) :
+    ∃ s ds' s2 ds2, feed false items s0 ds = some (s, ds') ∧ feed false more s ds' = some (s2, ds2) ∧
+      (s.R ≠ [] → s2.R ≠ [] ∧ s.totalWtR / (s.R.length : Rat) ≤ s2.totalWtR / (s2.R.length : Rat)) ∧
+      (s.R ≠ [] →
+        (∀ e ∈ s.H, (e.item, e.wt) ∈ items ∧ s.totalWtR / (s.R.length : Rat) ≤ e.wt) ∧
+        (s.H ≠ [] → s.totalWtR / (s.R.length : Rat) ≤ wtAt s.H 0) ∧
+        (∀ q ∈ items, s.totalWtR / (s.R.length : Rat) < q.2 → ∃ e ∈ s.H, e.item = q.1 ∧ e.wt = q.2)) := by
+  obtain ⟨hinv0, _, _, _⟩ := new_inv T k rf false s0 h0
+  obtain ⟨s, ds', L, hf, hinv, _, hg, _, _⟩ := feed_spec false items s0 [] [] ds hinv0 hpos (by simp)
+  obtain ⟨s2, ds2, L2, hf2, _, _, _, _, htau⟩ := feed_spec false more s _ L ds' hinv hpos2 (by simp)
+  refine ⟨s, ds', s2, ds2, hf, hf2, ?_, ?_⟩
+  · intro hr
+    obtain ⟨hr2, hle⟩ := htau hr
+    have h1 : (0 : Rat) < (s.R.length : Rat) := by exact_mod_cast length_pos_of_ne_nil hr
+    have h2 : (0 : Rat) < (s2.R.length : Rat) := by exact_mod_cast length_pos_of_ne_nil hr2
+    exact ⟨hr2, by rw [div_le_div_iff₀ h1 h2]; exact hle⟩
+  · intro hr
+    have he := hinv.est hr
+    have hr0 : (0 : Rat) < (s.R.length : Rat) := by exact_mod_cast length_pos_of_ne_nil hr
+    have hmem : ∀ e ∈ entriesOf s0.gadget false items ++ [], (e.item, e.wt) ∈ items := by
+      intro e he'
+      simp only [List.append_nil] at he'
+      exact (mem_entriesOf.mp he').1
+    refine ⟨fun e heH => ⟨hmem e (hinv.perm.symm.subset (List.mem_append_left _ heH)), he.tau_le hr heH⟩, ?_, ?_⟩
+    · intro hne
+      obtain ⟨r, t, hH⟩ := exists_cons_of_length_pos (length_pos_of_ne_nil hne)
+      rw [hH, wtAt_zero_cons]
+      exact he.tau_le hr (by rw [hH]; simp)
+    · intro q hq hlt
+      have hmem' : ({ item := q.1, wt := q.2, mark := false } : E) ∈ entriesOf s0.gadget false items ++ [] := by
+        rw [List.append_nil, mem_entriesOf]; exact ⟨hq, by simp⟩
+      rcases List.mem_append.mp (hinv.perm.subset hmem') with h | h
+      · exact ⟨_, h, rfl, rfl⟩
+      · -- an absorbed input is at most tau
+        have := he.lLight _ h
+        rw [div_lt_iff₀ hr0] at hlt
+        simp only at this
+        exact absurd hlt (not_lt.mpr this)
+
+example : (∀ p ∈ exItems, 0 < p.2) ∧ (∀ p ∈ [((5 : Int), (100 : Rat))], 0 < p.2) := by decide
+
+/-- the two fraction bounds bracket the sample fraction `r_true / r` (the analytic fact about
+    `pseudo_hypergeometric_{lb,ub}_on_p` that is NOT proved here: those functions need sqrt/exp/pow) -/
+def BracketsFraction (B : FracBounds Rat) : Prop :=
+  ∀ (r c : Nat) (rate : Rat), 0 < r → c ≤ r → B.lb r c rate ≤ (c : Rat) / (r : Rat) ∧ (c : Rat) / (r : Rat) ≤ B.ub r c rate
+
+/-- full statement: for the bound functions `B`, after every stream and for every predicate `estimate_subset_sum`
+    returns (does not throw) and `lower_bound ≤ estimate ≤ upper_bound` -/
+def vo_subset_bounds_full (B : FracBounds Rat) : Prop :=
+  ∀ (T : Tunables) (k rf : Nat) (s0 : Sk Rat), Sk.new T k rf false = some s0 →
+    ∀ (items : List (Int × Rat)), (∀ p ∈ items, 0 < p.2) → ∀ (ds : Draws Rat) (p : Int → Bool),
+      ∃ s ds' res, feed false items s0 ds = some (s, ds') ∧ estimateSubsetSum B s p = some res ∧
+        res.lowerBound ≤ res.estimate ∧ res.estimate ≤ res.upperBound
+
+/-- **vo_subset_bounds_partial.** The full statement holds for every pair of bound functions that brackets the
+    sample fraction.  Missing for the literal statement: a proof that the code's Abramowitz–Stegun / exact-binomial
+    formulas satisfy `BracketsFraction` (checked on every trace by the oracle instead). -/
+theorem vo_subset_bounds_partial (B : FracBounds Rat) (hB : BracketsFraction B) : vo_subset_bounds_full B := by
+  intro T k rf s0 h0 items hpos ds p
+  obtain ⟨hinv0, _, _, _⟩ := new_inv T k rf false s0 h0
+  obtain ⟨s, ds', L, hf, hinv, _, _, _, _⟩ := feed_spec false items s0 [] [] ds hinv0 hpos (by simp)
+  obtain ⟨res, hres⟩ := hinv.estimate_some B p
+  have hW : s.R.length ≠ 0 → 0 ≤ s.totalWtR := by
+    intro hr0
+    have hr : s.R ≠ [] := fun h => hr0 (by rw [h]; rfl)
+    rw [(hinv.est hr).wtR]
+    exact sumW_nonneg (fun e heL => hinv.pos e (hinv.perm.symm.subset (List.mem_append_right _ heL)))
+  obtain ⟨h1, h2⟩ := estimate_bounds B s p hW hB res hres
+  exact ⟨s, ds', res, hf, hres, h1, h2⟩
+
+example : BracketsFraction ⟨fun r c _ => (c : Rat) / (r : Rat), fun r c _ => (c : Rat) / (r : Rat)⟩ :=
+  fun _ _ _ _ _ => ⟨le_refl _, le_refl _⟩
+
+/-- **vo_one_step_unbiased.** One down-sampling step (`choose_delete_slot`, general case of ≥ 2 explicit-weight
+    candidates `M` plus `r ≥ 1` reservoir items, `c = |M| + r` candidates of total weight `W`, new threshold
+    `τ' = W/(c−1)`, every M weight below τ' as `grow_candidate_set` guarantees).  With `u` the uniform draw:
+    M-candidate `i` is the one deleted exactly for `u ∈ [thr i, thr (i+1))`, an interval of length `1 − w_i/τ'`, so
+    `P[keep i]·τ' = w_i`; the deletion falls into R exactly for `u ≥ thr |M|`, a set of measure `r·(1 − τ/τ')` in
+    `[0,1]` where `τ = (W − ΣM)/r` is the old per-item weight of R (the slot inside R is then the uniform integer draw),
+    so each R item is kept with probability `τ/τ'`. -/
+theorem vo_one_step_unbiased (M : List E) (r : Nat) (W : Rat) (c : Nat) (ds : Draws Rat)
+    (hM : 2 ≤ M.length) (hc : c = M.length + r) (hr : 1 ≤ r) (hW : 0 < W)
+    (hlight : ∀ e ∈ M, e.wt * ((c : Rat) - 1) < W) (hu : 0 ≤ (nextDouble ds).1) :
+    (∀ i, i < M.length → ((chooseDeleteSlot M r W c ds).1 = i ↔
+        thr (W / ((c : Rat) - 1)) M i ≤ (nextDouble ds).1 ∧ (nextDouble ds).1 < thr (W / ((c : Rat) - 1)) M (i + 1))) ∧
+    (M.length ≤ (chooseDeleteSlot M r W c ds).1 ↔ thr (W / ((c : Rat) - 1)) M M.length ≤ (nextDouble ds).1) ∧
+    (∀ i (hi : i < M.length),
+        thr (W / ((c : Rat) - 1)) M (i + 1) - thr (W / ((c : Rat) - 1)) M i = 1 - M[i].wt / (W / ((c : Rat) - 1)) ∧
+        (1 - (thr (W / ((c : Rat) - 1)) M (i + 1) - thr (W / ((c : Rat) - 1)) M i)) * (W / ((c : Rat) - 1)) = M[i].wt) ∧
+    (1 - thr (W / ((c : Rat) - 1)) M M.length = (r : Rat) * (1 - ((W - sumW M) / (r : Rat)) / (W / ((c : Rat) - 1)))) := by
+  have hc2 : 2 ≤ c := by omega
+  have hn : 0 < c - 1 := by omega
+  have hcast : ((c - 1 : Nat) : Rat) = (c : Rat) - 1 := by rw [Nat.cast_sub (by omega)]; simp
+  have hc1 : (0 : Rat) < (c : Rat) - 1 := by rw [← hcast]; exact_mod_cast hn
+  generalize hτ : W / ((c : Rat) - 1) = τ
+  have hτpos : 0 < τ := by rw [← hτ]; positivity
+  have hWτ : W = τ * ((c - 1 : Nat) : Rat) := by rw [← hτ, hcast]; field_simp
+  have hlt : ∀ e ∈ M, e.wt < τ := by
+    intro e he
+    rw [← hτ, lt_div_iff₀ hc1]; exact hlight e he
+  -- the code on a candidate list with at least two explicit weights
+  obtain ⟨a, b, t, hMabt⟩ : ∃ a b t, M = a :: b :: t := by
+    match M, hM with
+    | a :: b :: t, _ => exact ⟨a, b, t, rfl⟩
+  have hloop0 : (0 : Rat) = ((c - 1 : Nat) : Rat) * 0 := by simp
+  have hright : Num.mul (Num.mul (Num.neg (Num.one : Rat)) W) (nextDouble ds).1
+      = τ * ((c - 1 : Nat) : Rat) * (((0 : Nat) : Rat) - (nextDouble ds).1) := by
+    simp only [Num.mul_rat, Num.neg_rat, Num.one_rat]; rw [hWτ]; push_cast; ring
+  obtain ⟨hchar1, hchar2⟩ := weightedLoop_char τ (c - 1) hτpos hn (nextDouble ds).1 M 0 0 hlt (by simpa using hu)
+  have hb := weightedLoop_bounds (τ * ((c - 1 : Nat) : Rat)) (c - 1) M (((c - 1 : Nat) : Rat) * 0)
+    (τ * ((c - 1 : Nat) : Rat) * (((0 : Nat) : Rat) - (nextDouble ds).1)) 0
+  have hcds : (chooseDeleteSlot M r W c ds).1 =
+      if weightedLoop (τ * ((c - 1 : Nat) : Rat)) (c - 1) M (((c - 1 : Nat) : Rat) * 0)
+          (τ * ((c - 1 : Nat) : Rat) * (((0 : Nat) : Rat) - (nextDouble ds).1)) 0 = M.length
+      then M.length + (pickR r (nextDouble ds).2).1
+      else weightedLoop (τ * ((c - 1 : Nat) : Rat)) (c - 1) M (((c - 1 : Nat) : Rat) * 0)
+          (τ * ((c - 1 : Nat) : Rat) * (((0 : Nat) : Rat) - (nextDouble ds).1)) 0 := by
+    rw [← hright, ← hloop0, ← hWτ, hMabt]
+    simp only [chooseDeleteSlot, Num.zero_rat, beq_iff_eq]
+    split <;> rfl
+  refine ⟨?_, ?_, ?_, ?_⟩
+  · intro i hi
+    rw [hcds]
+    have := hchar1 i hi
+    simp only [Nat.zero_add, zero_add] at this
+    unfold thr
+    rw [← this]
+    split
+    · rename_i heq; omega
+    · rfl
+  · rw [hcds]
+    simp only [Nat.zero_add, zero_add] at hchar2
+    unfold thr
+    rw [List.take_length, ← hchar2]
+    split
+    · rename_i heq; constructor <;> intro _ <;> [exact heq; omega]
+    · rename_i hne; constructor
+      · intro h; omega
+      · intro h; exact absurd h hne
+  · intro i hi
+    have htake : sumW (M.take (i + 1)) = sumW (M.take i) + M[i].wt := by
+      rw [List.take_succ_eq_append_getElem hi, sumW_append]; simp [sumW]
+    have hτne : τ ≠ 0 := ne_of_gt hτpos
+    unfold thr
+    rw [htake]
+    constructor
+    · push_cast; field_simp; ring
+    · push_cast; field_simp; ring
+  · unfold thr
+    rw [List.take_length]
+    have hr0 : (r : Rat) ≠ 0 := by exact_mod_cast (by omega : r ≠ 0)
+    have hτne : τ ≠ 0 := ne_of_gt hτpos
+    have hWeq : W = τ * ((c : Rat) - 1) := by rw [hWτ, hcast]
+    have hcr : (c : Rat) = (M.length : Rat) + (r : Rat) := by rw [hc]; push_cast; ring
+    rw [hWeq, hcr]
+    field_simp
+    ring
+
+example : ∃ (M : List E) (W : Rat) (c : Nat), 2 ≤ M.length ∧ c = M.length + 2 ∧ 0 < W ∧
+    (∀ e ∈ M, e.wt * ((c : Rat) - 1) < W) ∧ 0 ≤ (nextDouble exDraws).1 :=
+  ⟨[⟨1, 3, false⟩, ⟨2, 4, false⟩], 27, 4, by decide, rfl, by norm_num, by
+    intro e he; simp at he; rcases he with rfl | rfl <;> norm_num, by norm_num [nextDouble, exDraws, Num.ofFrac]⟩
 
 end DS.VarOpt
